@@ -13,13 +13,5 @@ impl<'a> LinesIter<'a> {
     { unimplemented!() }
 }
 #[verifier::external_body]
-pub fn __str_to_string(s: &str) -> (r: String) ensures r@ == s@ { s.to_string() }
-#[verifier::external_body]
-pub fn __str_eq(a: &str, b: &str) -> (r: bool) ensures r == (a@ == b@) { a == b }
-#[verifier::external_body]
-pub fn __str_is_empty(a: &str) -> (r: bool) ensures r == (a@.len() == 0) { a.is_empty() }
-#[verifier::external_body]
 pub fn __langs_contains(langs: &[&str], l: &&str) -> (r: bool)
     ensures r == exists|k: int| 0 <= k < langs@.len() && (#[trigger] langs@[k])@ == l@ { langs.contains(l) }
-#[verifier::external_body]
-pub fn __str_ne(a: &str, b: &str) -> (r: bool) ensures r == (a@ != b@) { a != b }
